@@ -132,6 +132,26 @@ pub fn compare_row(
     true
 }
 
+/// Like `compare_row`, but with grouping semantics: NULLs are not distinct from
+/// each other (GROUP BY / DISTINCT / UNION keep all NULL keys in one group),
+/// whereas a join key never matches on NULL.
+#[inline]
+pub fn compare_row_null_eq(
+    arrays_a: &[ArrayRef],
+    row_a: usize,
+    arrays_b: &[ArrayRef],
+    row_b: usize,
+) -> bool {
+    for (a, b) in arrays_a.iter().zip(arrays_b.iter()) {
+        match (a.is_null(row_a), b.is_null(row_b)) {
+            (true, true) => continue,
+            (false, false) if compare_array_values(a, row_a, b, row_b) => continue,
+            _ => return false,
+        }
+    }
+    true
+}
+
 /// Compare a single value between two arrays at given rows.
 #[inline]
 fn compare_array_values(a: &ArrayRef, row_a: usize, b: &ArrayRef, row_b: usize) -> bool {
@@ -314,6 +334,23 @@ mod tests {
             0
         ));
         assert!(!compare_row(&[a1, a2], 1, &[b1, b2], 1));
+    }
+
+    #[test]
+    fn test_compare_row_null_eq() {
+        let a1: ArrayRef = Arc::new(Int64Array::from(vec![None, None, Some(1), Some(1)]));
+        let a2: ArrayRef = Arc::new(StringArray::from(vec![Some("x"), None, None, Some("x")]));
+        let keys = [a1, a2];
+        // NULL groups with NULL, column by column
+        assert!(compare_row_null_eq(&keys, 0, &keys, 0));
+        assert!(compare_row_null_eq(&keys, 1, &keys, 1));
+        // NULL never groups with a value
+        assert!(!compare_row_null_eq(&keys, 0, &keys, 1));
+        assert!(!compare_row_null_eq(&keys, 2, &keys, 3));
+        assert!(!compare_row_null_eq(&keys, 0, &keys, 3));
+        // Join semantics are unchanged: a NULL key matches nothing
+        assert!(!compare_row(&keys, 0, &keys, 0));
+        assert!(compare_row(&keys, 3, &keys, 3));
     }
 
     #[test]
